@@ -1,35 +1,7 @@
-#![allow(dead_code)]
 //! vcore: model-checking harness for trippy-core / trippy-packet properties.
 //! Usage: vcore <Cxx> [--tier quick|thorough] [--replay <file>]
 
-mod c01;
-mod c02;
-mod c03;
-mod c04;
-mod c05;
-mod c06;
-mod c07;
-mod c08;
-mod c09;
-mod c10;
-mod c11;
-mod c12;
-mod c13;
-mod c14;
-mod c15;
-mod c19;
-mod c20;
-mod drive;
-mod mc;
-mod pkt;
-mod refstate;
-mod report;
-mod sched;
-mod simnet;
-mod stateexp;
-mod strat;
-mod vclock;
-mod wire;
+use vcore::*;
 
 fn main() {
     let argv: Vec<String> = std::env::args().collect();
@@ -37,16 +9,7 @@ fn main() {
         eprintln!("usage: vcore <Cxx> [--tier quick|thorough] [--replay <file>]");
         std::process::exit(2);
     }
-    // keep large, short-lived allocations (probe buffers, hop tables) in the heap instead of
-    // mmap/munmap churn: every execution rebuilds the whole tracer
-    unsafe {
-        libc::mallopt(libc::M_MMAP_THRESHOLD, 1 << 30);
-        libc::mallopt(libc::M_TRIM_THRESHOLD, 1 << 30);
-        libc::mallopt(libc::M_TOP_PAD, 64 << 20);
-    }
-    mc::install_panic_hook();
-    vclock::self_test();
-    wire::self_test();
+    vcore::init();
     let args = report::parse_args(&argv[2..]);
     let code = match argv[1].as_str() {
         "C01" => c01::run(&args),
